@@ -279,6 +279,76 @@ def int_to_hex (params : List (Value N)) : Except NativeError (Value N) :=
   | [_] => .error .wrongParameterType
   | _ => .error (.wrongParameterCount 1)
 
+/-- `abs` (src/stdlib/math.rs, generated by `generate_std_math_functions!(abs abs)`) -/
+def abs (params : List (Value N)) : Except NativeError (Value N) :=
+  match params with
+  | [.num value] => .ok (.num (NumX.abs value))
+  | [_] => .error .wrongParameterType
+  | _ => .error (.wrongParameterCount 1)
+
+/-- `arc_tan` (src/stdlib/math.rs, generated by `generate_std_math_functions!(arc_tan atan)`) -/
+def arc_tan (params : List (Value N)) : Except NativeError (Value N) :=
+  match params with
+  | [.num value] => .ok (.num (NumX.atan value))
+  | [_] => .error .wrongParameterType
+  | _ => .error (.wrongParameterCount 1)
+
+/-- `cos` (src/stdlib/math.rs, generated by `generate_std_math_functions!(cos cos)`) -/
+def cos (params : List (Value N)) : Except NativeError (Value N) :=
+  match params with
+  | [.num value] => .ok (.num (NumX.cos value))
+  | [_] => .error .wrongParameterType
+  | _ => .error (.wrongParameterCount 1)
+
+/-- `exp` (src/stdlib/math.rs, generated by `generate_std_math_functions!(exp exp)`) -/
+def exp (params : List (Value N)) : Except NativeError (Value N) :=
+  match params with
+  | [.num value] => .ok (.num (NumX.exp value))
+  | [_] => .error .wrongParameterType
+  | _ => .error (.wrongParameterCount 1)
+
+/-- `frac` (src/stdlib/math.rs, generated by `generate_std_math_functions!(frac fract)`) -/
+def frac (params : List (Value N)) : Except NativeError (Value N) :=
+  match params with
+  | [.num value] => .ok (.num (NumX.fract value))
+  | [_] => .error .wrongParameterType
+  | _ => .error (.wrongParameterCount 1)
+
+/-- `ln` (src/stdlib/math.rs, generated by `generate_std_math_functions!(ln ln)`) -/
+def ln (params : List (Value N)) : Except NativeError (Value N) :=
+  match params with
+  | [.num value] => .ok (.num (NumX.ln value))
+  | [_] => .error .wrongParameterType
+  | _ => .error (.wrongParameterCount 1)
+
+/-- `round` (src/stdlib/math.rs, generated by `generate_std_math_functions!(round round)`) -/
+def round (params : List (Value N)) : Except NativeError (Value N) :=
+  match params with
+  | [.num value] => .ok (.num (NumX.round value))
+  | [_] => .error .wrongParameterType
+  | _ => .error (.wrongParameterCount 1)
+
+/-- `sin` (src/stdlib/math.rs, generated by `generate_std_math_functions!(sin sin)`) -/
+def sin (params : List (Value N)) : Except NativeError (Value N) :=
+  match params with
+  | [.num value] => .ok (.num (NumX.sin value))
+  | [_] => .error .wrongParameterType
+  | _ => .error (.wrongParameterCount 1)
+
+/-- `sqrt` (src/stdlib/math.rs, generated by `generate_std_math_functions!(sqrt sqrt)`) -/
+def sqrt (params : List (Value N)) : Except NativeError (Value N) :=
+  match params with
+  | [.num value] => .ok (.num (NumX.sqrt value))
+  | [_] => .error .wrongParameterType
+  | _ => .error (.wrongParameterCount 1)
+
+/-- `trunc` (src/stdlib/math.rs, generated by `generate_std_math_functions!(trunc trunc)`) -/
+def trunc (params : List (Value N)) : Except NativeError (Value N) :=
+  match params with
+  | [.num value] => .ok (.num (NumOps.trunc value))
+  | [_] => .error .wrongParameterType
+  | _ => .error (.wrongParameterCount 1)
+
 /-- `chr` (src/stdlib/string.rs) -/
 def chr (params : List (Value N)) : Except NativeError (Value N) :=
   match params with
